@@ -2293,6 +2293,7 @@ func runC10(c *Ctx) {
 		"goroutine contexts: MAIN = the application's goroutine calling the exported API; ANY = PostEvent, PostEventBlocking, SyncFunc, Resize, Query*, CursorPosition, ClipboardPop and spinner Start/Stop/Toggle from any number of goroutines, only while the input goroutine runs",
 		"mutexes are identified by their struct field (instance-insensitive)")
 	e := c10Build(c)
+	c10EngCache = e
 	if e.debug {
 		e.dump()
 	}
